@@ -53,6 +53,10 @@ theorem loop_honest (ex : Uuid → Bool) (B : Backend) (hB : Honest ex B) (ropts
         intro u ⟨hu, he⟩
         exact hnonempty ⟨u, hu, he⟩ rfl
       · simp only [hi, if_false]
+        have hacc : ¬ accepts todo (pageUuids items) = false := by
+          rw [Bool.not_eq_false, accepts_iff]
+          exact ⟨hnd', fun u hu => (hsub u hu).1⟩
+        simp only [if_neg hacc]
         have hprog : (remaining todo items).length ≠ todo.length := by
           rw [progress_iff]
           cases items with
@@ -100,18 +104,23 @@ theorem loop_provenance (B : Backend) (ropts : Opts) (fuel : Nat) (todo : List U
         by_cases hi : items = []
         · simp [hi] at hx
         · simp only [hi, if_false] at hx
-          by_cases hp : (remaining todo items).length = todo.length
-          · simp only [hp, if_true, List.flatten_cons, List.flatten_nil, List.append_nil] at hx
+          by_cases ha : accepts todo (pageUuids items) = false
+          · simp only [ha, if_true, List.flatten_cons, List.flatten_nil, List.append_nil] at hx
             exact ⟨todo, idx, items, fun _ h => h, hB, hx⟩
-          · simp only [hp, if_false, push_pages, List.flatten_cons, List.mem_append] at hx
-            rcases hx with hx | hx
-            · exact ⟨todo, idx, items, fun _ h => h, hB, hx⟩
-            · obtain ⟨batch, i, its, h1, h2, h3⟩ := ih _ _ x hx
-              exact ⟨batch, i, its, fun u hu => remaining_sub _ _ _ (h1 u hu), h2, h3⟩
+          · simp only [if_neg ha] at hx
+            by_cases hp : (remaining todo items).length = todo.length
+            · simp only [hp, if_true, List.flatten_cons, List.flatten_nil, List.append_nil] at hx
+              exact ⟨todo, idx, items, fun _ h => h, hB, hx⟩
+            · simp only [hp, if_false, push_pages, List.flatten_cons, List.mem_append] at hx
+              rcases hx with hx | hx
+              · exact ⟨todo, idx, items, fun _ h => h, hB, hx⟩
+              · obtain ⟨batch, i, its, h1, h2, h3⟩ := ih _ _ x hx
+                exact ⟨batch, i, its, fun u hu => remaining_sub _ _ _ (h1 u hu), h2, h3⟩
 
 /-- The call log of the loop (any backend): every entry is a real call with a non-empty batch of
 still-wanted uuids; the pages merged are exactly the pages logged; a failure is a 502; and the loop
-ends normally only if every call returned a page that was empty or contained a wanted uuid. -/
+ends normally only if every call returned a page that was empty or consisted of pairwise distinct
+uuids of its batch (so it also contained a wanted uuid). -/
 theorem loop_log (B : Backend) (ropts : Opts) (fuel : Nat) (todo : List Uuid) (idx : Nat) :
     let r := clusterLoop B ropts fuel todo idx
     (∀ e ∈ r.log, ∃ batch i, batch ≠ [] ∧ (∀ u ∈ batch, u ∈ todo) ∧
@@ -119,7 +128,8 @@ theorem loop_log (B : Backend) (ropts : Opts) (fuel : Nat) (todo : List Uuid) (i
     r.pages.flatten = logItems r.log ∧
     (∀ s, r.stop = .failed s → s = 502) ∧
     (r.stop = .done → ∀ e ∈ r.log, ∃ batch items, e.1 = batchReq ropts batch ∧ e.2 = .page items ∧
-        (items = [] ∨ ∃ u ∈ pageUuids items, u ∈ batch)) := by
+        (items = [] ∨ ((pageUuids items).Nodup ∧ (∀ u ∈ pageUuids items, u ∈ batch) ∧
+          ∃ u ∈ pageUuids items, u ∈ batch))) := by
   induction fuel generalizing todo idx with
   | zero => by_cases h : todo = [] <;> simp [clusterLoop, h, logItems]
   | succ fuel ih =>
@@ -146,26 +156,132 @@ theorem loop_log (B : Backend) (ropts : Opts) (fuel : Nat) (todo : List Uuid) (i
           · intro s' h; cases h
           · rintro _ e rfl; exact ⟨todo, [], rfl, rfl, Or.inl rfl⟩
         · simp only [hi, if_false]
-          by_cases hp : (remaining todo items).length = todo.length
-          · simp only [hp, if_true, List.mem_singleton, logItems, List.flatMap_cons, List.flatMap_nil, respItems,
+          by_cases ha : accepts todo (pageUuids items) = false
+          · simp only [ha, if_true, List.mem_singleton, logItems, List.flatMap_cons, List.flatMap_nil, respItems,
               List.flatten_cons, List.flatten_nil, List.append_nil, true_and]
             refine ⟨?_, ?_, ?_⟩
             · rintro e rfl; exact ⟨todo, idx, hne, fun _ h => h, by rw [hB]⟩
             · intro s' h; cases h; rfl
             · intro h; cases h
-          · simp only [hp, if_false, push_log, push_pages, push_stop, List.mem_cons, List.flatten_cons]
-            obtain ⟨h1, h2, h3, h4⟩ := ih (remaining todo items) (idx + 1)
-            refine ⟨?_, ?_, h3, ?_⟩
-            · rintro e (rfl | he)
-              · exact ⟨todo, idx, hne, fun _ h => h, by rw [hB]⟩
-              · obtain ⟨batch, i, hb1, hb2, hb3⟩ := h1 e he
-                exact ⟨batch, i, hb1, fun u hu => remaining_sub _ _ _ (hb2 u hu), hb3⟩
-            · rw [h2]; simp [logItems, respItems]
-            · intro hd e he
-              rcases he with rfl | he
-              · refine ⟨todo, items, rfl, rfl, Or.inr ?_⟩
-                exact (progress_iff todo items).mp hp
-              · exact h4 hd e he
+          · simp only [if_neg ha]
+            by_cases hp : (remaining todo items).length = todo.length
+            · simp only [hp, if_true, List.mem_singleton, logItems, List.flatMap_cons, List.flatMap_nil, respItems,
+                List.flatten_cons, List.flatten_nil, List.append_nil, true_and]
+              refine ⟨?_, ?_, ?_⟩
+              · rintro e rfl; exact ⟨todo, idx, hne, fun _ h => h, by rw [hB]⟩
+              · intro s' h; cases h; rfl
+              · intro h; cases h
+            · simp only [hp, if_false, push_log, push_pages, push_stop, List.mem_cons, List.flatten_cons]
+              obtain ⟨h1, h2, h3, h4⟩ := ih (remaining todo items) (idx + 1)
+              refine ⟨?_, ?_, h3, ?_⟩
+              · rintro e (rfl | he)
+                · exact ⟨todo, idx, hne, fun _ h => h, by rw [hB]⟩
+                · obtain ⟨batch, i, hb1, hb2, hb3⟩ := h1 e he
+                  exact ⟨batch, i, hb1, fun u hu => remaining_sub _ _ _ (hb2 u hu), hb3⟩
+              · rw [h2]; simp [logItems, respItems]
+              · intro hd e he
+                rcases he with rfl | he
+                · have hacc := (accepts_iff todo (pageUuids items)).mp (by simpa using ha)
+                  exact ⟨todo, items, rfl, rfl, Or.inr ⟨hacc.1, hacc.2, (progress_iff todo items).mp hp⟩⟩
+                · exact h4 hd e he
+
+/-- Safety of the loop for **any** backend: if it ends normally, the uuids it handed to the merge
+are pairwise distinct and were all requested from this cluster. -/
+theorem loop_safe (B : Backend) (ropts : Opts) (fuel : Nat) (todo : List Uuid) (idx : Nat)
+    (hd : (clusterLoop B ropts fuel todo idx).stop = .done) :
+    (pageUuids (clusterLoop B ropts fuel todo idx).pages.flatten).Nodup ∧
+    ∀ u ∈ pageUuids (clusterLoop B ropts fuel todo idx).pages.flatten, u ∈ todo := by
+  induction fuel generalizing todo idx with
+  | zero => by_cases h : todo = [] <;> simp [clusterLoop, h, pageUuids] at hd ⊢
+  | succ fuel ih =>
+    by_cases hne : todo = []
+    · subst hne; simp [clusterLoop, pageUuids]
+    · rw [loop_step B ropts fuel todo idx hne] at hd ⊢
+      cases hB : B (batchReq ropts todo) idx with
+      | error s => rw [hB] at hd; simp at hd
+      | page items =>
+        rw [hB] at hd
+        simp only at hd ⊢
+        by_cases hi : items = []
+        · simp [hi, pageUuids]
+        · simp only [hi, if_false] at hd ⊢
+          by_cases ha : accepts todo (pageUuids items) = false
+          · simp [ha] at hd
+          · simp only [if_neg ha] at hd ⊢
+            by_cases hp : (remaining todo items).length = todo.length
+            · simp [hp] at hd
+            · simp only [hp, if_false, push_stop, push_pages, List.flatten_cons, pageUuids_append] at hd ⊢
+              have hacc := (accepts_iff todo (pageUuids items)).mp (by simpa using ha)
+              obtain ⟨h1, h2⟩ := ih (remaining todo items) (idx + 1) hd
+              refine ⟨?_, ?_⟩
+              · rw [List.nodup_append]
+                refine ⟨hacc.1, h1, ?_⟩
+                intro a ha' b hb hab
+                subst hab
+                exact ((mem_remaining todo items a).mp (h2 a hb)).2 ha'
+              · intro u hu
+                rcases List.mem_append.mp hu with hu | hu
+                · exact hacc.2 u hu
+                · exact remaining_sub _ _ _ (h2 u hu)
+
+/-- A backend that pages correctly except that it may also return existing objects outside the
+batch (e.g. objects it already delivered, "repeated items"): every returned object exists, and
+while a wanted object remains the page contains one. -/
+def RepeatingHonest (ex : Uuid → Bool) (B : Backend) : Prop :=
+  ∀ (o : Opts) (batch : List Uuid) (idx : Nat), o.filters = [batchFilter batch] →
+    ∃ items, B o idx = .page items ∧ (∀ u ∈ pageUuids items, ex u = true) ∧
+      ((∃ u ∈ batch, ex u = true) → ∃ u ∈ pageUuids items, u ∈ batch)
+
+theorem honest_repeating (ex : Uuid → Bool) (B : Backend) (h : Honest ex B) : RepeatingHonest ex B := by
+  intro o batch idx hf
+  obtain ⟨items, h1, _, h3, h4⟩ := h o batch idx hf
+  refine ⟨items, h1, fun u hu => (h3 u hu).2, ?_⟩
+  intro hex
+  have hne := h4 hex
+  cases items with
+  | nil => exact absurd rfl hne
+  | cons x xs => exact ⟨x.uuid, by simp [pageUuids], (h3 x.uuid (by simp [pageUuids])).1⟩
+
+/-- Completeness for repeating backends: if the loop ends normally, every wanted uuid that exists
+was delivered, and everything delivered exists. -/
+theorem loop_complete (ex : Uuid → Bool) (B : Backend) (hB : RepeatingHonest ex B) (ropts : Opts)
+    (fuel : Nat) (todo : List Uuid) (idx : Nat)
+    (hd : (clusterLoop B ropts fuel todo idx).stop = .done) :
+    (∀ u ∈ todo, ex u = true → u ∈ pageUuids (clusterLoop B ropts fuel todo idx).pages.flatten) ∧
+    (∀ u ∈ pageUuids (clusterLoop B ropts fuel todo idx).pages.flatten, ex u = true) := by
+  induction fuel generalizing todo idx with
+  | zero => by_cases h : todo = [] <;> simp [clusterLoop, h, pageUuids] at hd ⊢
+  | succ fuel ih =>
+    by_cases hne : todo = []
+    · subst hne; simp [clusterLoop, pageUuids]
+    · rw [loop_step B ropts fuel todo idx hne] at hd ⊢
+      obtain ⟨items, hresp, hex, hprog⟩ := hB (batchReq ropts todo) todo idx rfl
+      rw [hresp] at hd ⊢
+      simp only at hd ⊢
+      by_cases hi : items = []
+      · subst hi
+        simp only [if_true, List.flatten_cons, List.flatten_nil, List.append_nil, pageUuids, List.map_nil,
+          List.not_mem_nil, false_imp_iff, implies_true, and_true]
+        intro u hu he
+        obtain ⟨v, hv, _⟩ := hprog ⟨u, hu, he⟩
+        simp [pageUuids] at hv
+      · simp only [hi, if_false] at hd ⊢
+        by_cases ha : accepts todo (pageUuids items) = false
+        · simp [ha] at hd
+        · simp only [if_neg ha] at hd ⊢
+          by_cases hp : (remaining todo items).length = todo.length
+          · simp [hp] at hd
+          · simp only [hp, if_false, push_stop, push_pages, List.flatten_cons, pageUuids_append] at hd ⊢
+            obtain ⟨h1, h2⟩ := ih (remaining todo items) (idx + 1) hd
+            refine ⟨?_, ?_⟩
+            · intro u hu he
+              by_cases hin : u ∈ pageUuids items
+              · exact List.mem_append.mpr (Or.inl hin)
+              · exact List.mem_append.mpr (Or.inr (h1 u ((mem_remaining todo items u).mpr ⟨hu, hin⟩) he))
+            · intro u hu
+              rcases List.mem_append.mp hu with hu | hu
+              · exact hex u hu
+              · exact h2 u hu
 
 /-- first call fails ⇒ the cluster fails with 502 -/
 theorem loop_first_error (B : Backend) (ropts : Opts) (fuel : Nat) (todo : List Uuid) (idx s : Nat)
@@ -174,19 +290,21 @@ theorem loop_first_error (B : Backend) (ropts : Opts) (fuel : Nat) (todo : List 
     (clusterLoop B ropts (fuel + 1) todo idx).log.length = 1 := by
   rw [loop_step B ropts fuel todo idx hne, hB]; simp
 
-/-- a non-empty first page without any wanted uuid ⇒ the cluster fails with 502 after that call -/
-theorem loop_first_noprogress (B : Backend) (ropts : Opts) (fuel : Nat) (todo : List Uuid) (idx : Nat)
+/-- a first page that carries a uuid outside the batch, or the same uuid twice ⇒ the cluster fails
+with 502 after that call (this subsumes the no-progress answer) -/
+theorem loop_first_stray (B : Backend) (ropts : Opts) (fuel : Nat) (todo : List Uuid) (idx : Nat)
     (items : List Obj) (hne : todo ≠ []) (hB : B (batchReq ropts todo) idx = .page items)
-    (hi : items ≠ []) (hnone : ∀ u ∈ pageUuids items, u ∉ todo) :
+    (hbad : ¬ ((pageUuids items).Nodup ∧ ∀ u ∈ pageUuids items, u ∈ todo)) :
     (clusterLoop B ropts (fuel + 1) todo idx).stop = .failed 502 ∧
     (clusterLoop B ropts (fuel + 1) todo idx).log.length = 1 := by
   rw [loop_step B ropts fuel todo idx hne, hB]
-  have : (remaining todo items).length = todo.length := by
-    apply Classical.byContradiction
-    intro h
-    obtain ⟨u, h1, h2⟩ := (progress_iff todo items).mp h
-    exact hnone u h1 h2
-  simp [hi, this]
+  have hi : items ≠ [] := by
+    intro h; subst h; exact hbad ⟨by simp [pageUuids], by simp [pageUuids]⟩
+  have ha : accepts todo (pageUuids items) = false := by
+    cases h : accepts todo (pageUuids items) with
+    | false => rfl
+    | true => exact absurd ((accepts_iff _ _).mp h) hbad
+  simp [hi, ha]
 
 /-! ### merge -/
 
